@@ -104,6 +104,8 @@ struct Inner<C> {
 
 struct PublishInfo {
     inflight: HashSet<num::NonZeroU16>,
+    /// `QoS 2` publishes acknowledged with PUBREC, waiting for PUBREL
+    received: HashSet<num::NonZeroU16>,
     aliases: HashMap<num::NonZeroU16, ByteString>,
 }
 
@@ -129,6 +131,7 @@ where
                 info: RefCell::new(PublishInfo {
                     aliases: HashMap::default(),
                     inflight: HashSet::default(),
+                    received: HashSet::default(),
                 }),
             }),
         }
@@ -326,8 +329,9 @@ where
                 Ok(None)
             }
             Decoded::Packet(Packet::PublishRelease(ack), size) => {
-                if self.inner.info.borrow().inflight.contains(&ack.packet_id) {
-                    self.inner.control(ProtocolMessage::pubrel(ack, size)).await
+                if self.inner.info.borrow_mut().received.remove(&ack.packet_id) {
+                    let id = ack.packet_id.get();
+                    self.inner.control_pkt(ProtocolMessage::pubrel(ack, size), id).await
                 } else {
                     Ok(Some(Encoded::Packet(codec::Packet::PublishComplete(
                         codec::PublishAck2 {
@@ -526,6 +530,12 @@ where
 
     if let Some(id) = num::NonZeroU16::new(packet_id) {
         let ack = if qos2 {
+            if (ack.reason_code as u8) < 0x80 {
+                inner.info.borrow_mut().received.insert(id);
+            } else {
+                // publish is rejected, PUBREL is not expected
+                inner.info.borrow_mut().inflight.remove(&id);
+            }
             codec::Packet::PublishReceived(codec::PublishAck {
                 packet_id: id,
                 reason_code: ack.reason_code,
